@@ -601,6 +601,7 @@ def replay_behaviour(job):
     import random
     sparse = bool(opts and opts.get('sparse'))
     rng = random.Random(opts.get('rng_seed', 0) if opts else 0)
+    finished_tids = set()
     try:
         rp.open()
         for i, step in enumerate(beh):
@@ -610,6 +611,12 @@ def replay_behaviour(job):
             mm = rp.step(a, step['args'], step['state'])
             what = 'outcome'
             ltid = step['state'].get('ltid')
+            if a == 'Finish' and not mm:
+                # (C04: a transaction id is never handed out twice, also when a pack removed the transaction meanwhile)
+                tid_ = norm(step['state']['res']).get('tid')
+                if tid_ in finished_tids:
+                    result['tid_reused'] = {'tid': tid_, 'step': i, 'prefix': result['sig'][:i + 1]}
+                finished_tids.add(tid_)
             if opts and opts.get('wrap_demo') and mm and a == 'Finish' and ' tid=' in mm[0]:
                 # a demo storage numbers its transactions from the last COMMITTED tid of its layers, a FileStorage from
                 # the last tid it handed out (aborted transactions included): after an abort within one clock second
